@@ -81,7 +81,7 @@ func (c06) Generate(r *core.Rng, run int, tier string) *core.History {
 		case c < 9:
 			ev("copy", mn, mn2, 0, 0)
 		case c < 10:
-			ev(core.Pick(r, []string{"nest-arr", "nest-arr", "nest-arr-func", "nest-variadic-func"}), "h", an, 0, 0, an2)
+			ev(core.Pick(r, []string{"nest-arr", "nest-arr", "nest-arr-func", "nest-variadic-func", "nest-variadic-func"}), "h", an, int64(r.Intn(2)), 0, an2)
 		case c < 11:
 			ev(core.Pick(r, []string{"nest-map", "nest-map", "nest-map-func", "nest-catch-func"}), "h", an, 0, 0, mn)
 		case c < 14:
@@ -246,6 +246,12 @@ func (c06) Execute(h *core.History) *core.Outcome {
 			}
 			m["h"] = &val{kind: "arr", arr: []*val{x.clone(), y.clone()}}
 			src = "h = (() => vg9(" + e.Key + ", " + e.Args[0] + "))()"
+			if e.N == 1 {
+				// a trailing array literal is expanded into the extra arguments; the ones before it are still values
+				f1, f2 := w.fresh(), w.fresh()
+				m["h"] = &val{kind: "arr", arr: []*val{x.clone(), y.clone(), vint(f1), vint(f2)}}
+				src = "h = (() => vg9(" + e.Key + ", " + e.Args[0] + ", [" + strconv.FormatInt(f1, 10) + ", " + strconv.FormatInt(f2, 10) + "]))()"
+			}
 		case "nest-catch-func":
 			// catch() of an outer binding from inside a function: its result map must hold the value, not a reference
 			x := m[e.Key]
